@@ -115,11 +115,11 @@ theorem ownedBy_iff {s : State} (hb : ∀ r R, s.reps r = some R → r < s.nextR
   · rintro ⟨r, R, hR, hp⟩
     unfold Rep.ownsVar at hp
     split at hp
-    · rename_i fid v' t hfn
-      exact ⟨r, R, fid, t, hR, by simp_all⟩
+    · rename_i f hfn
+      exact ⟨r, R, f, hR, hfn, by simpa using hp⟩
     · simp at hp
-  · rintro ⟨r, R, fid, t, hR, hf⟩
-    exact ⟨r, R, hR, by simp [Rep.ownsVar, hf]⟩
+  · rintro ⟨r, R, f, hR, hf, hfo⟩
+    exact ⟨r, R, hR, by simp [Rep.ownsVar, hf, hfo]⟩
 
 theorem pinned_iff {s : State} (hb : ∀ r R, s.reps r = some R → r < s.nextRep) (v : Nat) :
     pinned s v = true ↔ Pinned s v := by
@@ -159,7 +159,7 @@ theorem destroyRep_succ (k r : Nat) (s : State) : destroyRep (k + 1) r s =
 
 theorem inv_err {s : State} (h : Inv s) (b : Bool) : Inv { s with err := b } :=
   ⟨h.repAlive, h.repUniq, h.connReg, h.cbsConn, h.regUniq, h.cbsNodup, h.parentOk, h.trkReg, h.trkEnt, h.trkNodup,
-   h.refOk, h.ownOk, h.repBound⟩
+   h.refOk, h.ownOk, h.nestOk, h.anonBound, h.repBound⟩
 
 theorem casc_err (s : State) : Casc s { s with err := true } :=
   { nextRep := rfl
@@ -220,13 +220,10 @@ theorem destroyRep_spec : ∀ (k r : Nat) (s : State), Inv s →
         | some hv =>
           simp only []
           -- `f` is an owning functor for `hv`
-          have hOwn : Owned s hv := by
-            cases f <;> simp [Fun.owns] at ho
-            rename_i fid v t
-            exact ⟨r, R, fid, t, hr, by rw [hf, ho]⟩
+          have hOwn : Owned s hv := ⟨r, R, f, hr, hf, ho⟩
           have hNP : ¬ Pinned s hv := by
             rintro ⟨x, X, fid, hx, hfx⟩
-            exact (h.refOk x X fid hv hx hfx).2 hOwn
+            exact (h.refOk x X fid hv hx hfx).2.2 hOwn
           by_cases hob : ownedBy (dropFn r R f s) hv = true
           · rw [if_pos hob]; exact ⟨hC2, fun _ => ⟨hI2, hP2⟩⟩
           · rw [if_neg hob]
@@ -281,6 +278,7 @@ theorem err_unbindFun (r : Nat) (f : Fun) (s : State) : (unbindFun r f s).err = 
     cases t with
     | none => rfl
     | some t => exact err_trkRemove t r s
+  | nest fid v d => exact err_unsetParentIf v r s
 
 theorem err_dropFn (r : Nat) (R : Rep) (f : Fun) (s : State) : (dropFn r R f s).err = s.err := by
   unfold dropFn; rw [err_modRep, err_unbindFun, err_setRep]
